@@ -52,7 +52,12 @@ def cases(tier, seed):
             if F_h("fewpx", 2) == 0:
                 px = px[:rng.randint(1, 6)]                                   # fewer stored pixels than processes
                 nnz = len(px)
-        yield "bl.schedules", {"table": table, "px": px, "o": o, "runs": runs, "seed": h, "workers": 2 + F_h("m2@52", 2),
+        extra = {}
+        if F_h("prior", 3) == 0:
+            extra["prior"] = "relayout"          # the path held a cooler with ANOTHER chromosome layout, balanced by this process
+        if F_h("masked", 3) == 0 and not any(k.startswith("cli.") for _, k in runs):
+            o["black"] = sorted(rng.sample(range(n), rng.choice([1, 2])))      # masked bins (with contacts to other chromosomes)
+        yield "bl.schedules", {"table": table, "px": px, "o": o, "runs": runs, "seed": h, "workers": 2 + F_h("m2@52", 2), **extra,
                                **({"at": "/resolutions/1000"} if F_h("m5@53", 5) == 3 else {}), "stale": F_h("m4@53", 4) == 1}
 
 
